@@ -127,6 +127,10 @@ func StakingPayerFeeHandling(ctx *Context, feePayer keys.Address, signedTx Signe
 		return false, Response{Log: ErrGasOverflow.Error(), GasWanted: signedTx.Fee.Gas, GasUsed: signedTx.Fee.Gas}
 	}
 
+	// a delivered transaction may carry no signature at all (DeliverTx does not validate)
+	if len(signedTx.Signatures) == 0 {
+		return false, Response{Log: ErrUnmatchSigner.Error()}
+	}
 	signer := signedTx.Signatures[0].Signer
 	h, err := signer.GetHandler()
 	if err != nil {
@@ -192,6 +196,10 @@ func BasicFeeHandling(ctx *Context, signedTx SignedTx, start Gas, size Gas, sign
 	}
 
 	// only charge the first signer for now
+	// a delivered transaction may carry no signature at all (DeliverTx does not validate)
+	if len(signedTx.Signatures) == 0 {
+		return false, Response{Log: ErrUnmatchSigner.Error()}
+	}
 	signer := signedTx.Signatures[0].Signer
 	h, err := signer.GetHandler()
 	if err != nil {
